@@ -1,7 +1,15 @@
 //! Verification harness: drives the real discv5 implementation, runs direct property monitors and
 //! writes Coq case files for the correspondence with the models in /verif/coq.
 mod common;
+mod hnd;
 mod kb;
+mod pkt;
+mod talk;
+mod vote;
+mod lru;
+mod rpcc;
+mod query;
+mod service;
 
 fn main() {
     let args: Vec<String> = std::env::args().skip(1).collect();
@@ -10,9 +18,19 @@ fn main() {
         std::process::exit(2);
     }
     // Panics inside the implementation are caught per operation; keep the default hook quiet.
-    std::panic::set_hook(Box::new(|_| {}));
+    if std::env::var("VERIF_DEBUG").is_err() {
+        std::panic::set_hook(Box::new(|_| {}));
+    }
     match args[0].as_str() {
+        "hnd" => hnd::main(&args[1..]),
         "kb" => kb::main(&args[1..]),
+        "pkt" => pkt::main(&args[1..]),
+        "talk" => talk::main(&args[1..]),
+        "vote" => vote::main(&args[1..]),
+        "lru" => lru::main(&args[1..]),
+        "rpcc" => rpcc::main(&args[1..]),
+        "query" => query::main(&args[1..]),
+        "service" => service::main(&args[1..]),
         x => {
             eprintln!("unknown component {}", x);
             std::process::exit(2);
